@@ -53,3 +53,10 @@ claim('C30', 'translation_validation',
       'For every template of a stated family of array-section assignments (overlapping, strided, negative stride, shifted lower bounds, 2-D, masked, nested in loops/branches) and every transformation variant that keeps the declared index space, the real transformation is applied and z3 decides, over all input values at the instance sizes, whether original and transformed routine can differ in any array element (or trap); models are replayed with gfortran -fcheck=bounds.',
       TV_NOTE + ' Outside: shift_to_zero_indexing / invert_array_indices / flatten_arrays (change of index space).',
       'translation validation: symbolic interpretation of original and transformed IR + SMT equivalence (z3), compiler replay', 'E-SMT', 'DESIGN.md#C28-C34')
+for _pid, _what in [('C28', 'inlining (internal procedures, marked subroutines, statement/elemental/other functions, constant parameters, InlineTransformation)'),
+                    ('C29', 'associate resolution (full / partial depth) and merging'),
+                    ('C31', 'loop unrolling on literal bounds (18 start/stop/step combinations, nested depths) and fusion / fission / interchange / blocking on nests legal by construction'),
+                    ('C32', 'constant propagation (with / without unrolling), dead-code removal, unused variable / dummy / call argument removal')]:
+    claim(_pid, 'translation_validation',
+          f'For every template of a stated finite family the real {_what} is applied to the freshly parsed program; original and result are interpreted symbolically and z3 decides, over all input values at the instance sizes, whether any observable (argument values, module variables, PRINT output, abort, trap) can differ; models are replayed with gfortran -fcheck=bounds.',
+          TV_NOTE, 'translation validation: symbolic interpretation of original and transformed IR + SMT equivalence (z3), compiler replay', 'E-SMT', 'DESIGN.md#C28-C34')
